@@ -35,11 +35,15 @@ FUNCTIONS = {
         'garbagecollection.Debug.global_setup', 'garbagecollection.Debug.global_teardown',
         'tb_format.Traceback.global_setup', 'tb_format.Traceback.global_teardown',
         'coverage.TestTrace.start', 'coverage.TestTrace.stop', 'runner.Runner.run')]
-           + [(RR, TR + 'stopTest'), (RR, TR + '_restoreStdStreams'), PROTOCOL],
+           + [(RR, TR + '_setUpStdStreams'), (RR, TR + '_restoreStdStreams'), (RR, TR + 'startTest'), (RR, TR + 'stopTest')]
+           + EVENTS + [PROTOCOL, RUN_TESTS],      # sys.stdout / sys.stderr: everything the restoration argument uses
     'C09': [('find_c09', 'find.tests_from_suite'), ('find_c15', 'options.get_options')],
     'C11': [('shuffle_c11', 'shuffle.Shuffle.global_setup')],
     'C15': [('find_c15', 'find.remove_stale_bytecode'), ('find_c15', 'options.get_options')],
     'C20': [('digraph_c20', 'digraph.DiGraph.sccs')],
+    'C10': [('runner_order', f) for f in ('runner.gather_layers', 'runner.order_by_bases', 'runner.order_by_bases@unitfirst',
+                                          'runner.layer_sort_key', 'runner.layer_sort_key._gather',
+                                          'runner.Runner.ordered_layers')],
 }
 
 NATIVE = {p: p.lower() for p in ['C%02d' % i for i in range(1, 21)]}
@@ -224,5 +228,20 @@ MANIFEST = {
                 "total on graph nodes. The partition / maximality claim beyond the explored bound is NOT decided.",
         'explanation': "exploration of the real DiGraph.sccs against a Warshall oracle; the proof obligations listed under "
                        "obligations/discharged cover only the default-mode filter fragment",
+    },
+    'C10': {
+        'text': "Proof: order_by_bases returns a duplicate-free list of exactly the given layers in which no layer precedes "
+                "one of its bases, and (second contract on the same function) the unit-test layer first whenever it is "
+                "present: the real sort key layer_sort_key (with its self-referencing nested _gather, verified as a "
+                "recursive unit) yields () exactly for the unit-test layer and otherwise a tuple ending in the layer's own "
+                "name, so the reverse sort puts the unit layer last, the reversal first; Runner.ordered_layers (what both "
+                "the run loop and --list-tests iterate) yields exactly one group per registered layer name, in that order. "
+                "'Depends only on the set of layers': syntactic obligations on the real source (the ordering functions read "
+                "only their argument, __bases__ and name_from_layer; no global / nonlocal / default-argument state) plus "
+                "keys ending in the layer's own (distinct) name; determinism of sorted() for pairwise distinct keys is the "
+                "stdlib contract. Bounded oracle: all DAGs x namings x discovery orders x hash seeds within its bound.",
+        'note': COMMON_NOTE + "Assumed: sorted() orders by key and is a function of the multiset when keys are pairwise "
+                "distinct; tuples order lexicographically (() least); distinct layers have distinct names; two registered "
+                "names never denote the same layer object; class UnitTests has no base but object (checked on layer.py).",
     },
 }
